@@ -601,7 +601,8 @@ func c18Programs(tier string) []*Spec {
 func init() {
 	register(&Family{
 		Property: "C04",
-		Rule: "frame sequences from programs over {plain, extender rows below/above, abort+drop, remove-on-complete, Progress.Write of 1..3 lines, a bar added late, pop mode, pop mode + text, render delay} in manual and auto refresh, written to (i) a recorder interpreted on a virtual terminal of the container width and endless height and (ii) real pseudo terminals (cwriter's terminal path: size from the fd) of 40x8, 20x5 and 40x3 (thorough also 40x4, 40x2, 20x6), plus three bars on terminals of height 2, 3, 4 (below, at, above the row count); every schedule within the deviation bound. " +
+		Rule: "also: a render delay that outlasts the bars or a cancel (no byte before the delay ends even when the container ends first), a writer that reuses its buffer, and the clause that the text lines the frames carry are exactly the lines Progress.Write accepted; " +
+			"frame sequences from programs over {plain, extender rows below/above, abort+drop, remove-on-complete, Progress.Write of 1..3 lines, a bar added late, pop mode, pop mode + text, render delay} in manual and auto refresh, written to (i) a recorder interpreted on a virtual terminal of the container width and endless height and (ii) real pseudo terminals (cwriter's terminal path: size from the fd) of 40x8, 20x5 and 40x3 (thorough also 40x4, 40x2, 20x6), plus three bars on terminals of height 2, 3, 4 (below, at, above the row count); every schedule within the deviation bound. " +
 			"Oracle: the output stream is interpreted by an ANSI terminal emulator (CUU, ED, CR/LF, deferred wrap, scrollback); after every flush the terminal's whole history must equal the lines meant to persist (text written, popped bars, once, in order) followed by the rows of the current frame; the scrollback may hold persisted lines only; no line wraps; no frame is taller than the terminal; nothing is written before the render delay ends; a non-terminal without refresh receives no rows or cursor controls.",
 		Items: func(tier string) []Item {
 			var items []Item
@@ -624,7 +625,8 @@ func init() {
 	})
 	register(&Family{
 		Property: "C18",
-		Rule: "pop-completed mode: 2 (thorough 3) bars finishing in every order, in the same cycle, with extender rows, with a no-pop bar, with text written in between, with an abort, next to a bar that keeps running, with a priority change addressed to the finished bar in each window between its completion and its pop; manual (exact frames) and auto refresh; recorder on an endless virtual terminal and a 40x12 pseudo terminal; every schedule within the deviation bound. " +
+		Rule: "also: a bar queued behind an already popped bar (a declared successor counts only from the moment its Add was invoked); " +
+			"pop-completed mode: 2 (thorough 3) bars finishing in every order, in the same cycle, with extender rows, with a no-pop bar, with text written in between, with an abort, next to a bar that keeps running, with a priority change addressed to the finished bar in each window between its completion and its pop; manual (exact frames) and auto refresh; recorder on an endless virtual terminal and a 40x12 pseudo terminal; every schedule within the deviation bound. " +
 			"Oracle (terminal emulator): a popped bar is drawn above all live rows, from then on its rows are in the terminal history exactly once and unchanged (history == persisted lines ++ live rows after every flush), popped bars are ordered by the frame in which they finished, none is popped twice, every finished poppable bar is eventually popped (auto refresh), no-pop bars stay in the live region.",
 		Items: func(tier string) []Item {
 			var items []Item
